@@ -1,8 +1,7 @@
-import Std.Data.HashSet
 import Lox.Lex.Model
 import Lox.Lex.Actions
 import Lox.Lex.Regex
-/-! The verified lexer-table validator. Core Lean (+ `Std.HashSet`) only; linked into the driver.
+/-! The verified lexer-table validator. Core Lean only; linked into the driver.
 
 * `rowAt`: decoding of one emitted `_lexerModeN` (`internal/codegen/emit_lexer.go`, `mode_table` +
   `table.Array`) into rows, with the addressing of the generated `PushRune`: `tbl[q]` is the offset
@@ -107,6 +106,91 @@ state reached (`[]` = not accepting). -/
 def tableRun (tbl : Mode) (s : List Int) : Option (List Pair) :=
   (tableRunFrom tbl 0 s).map (rowPairs tbl)
 
+/-- The action interpreter of `PushRune` over a decoded pair list (same behaviour as
+`runActions` of `Model.lean` on the raw array, see `runActions_eq_runPairs`). `r` is the rune
+that was pushed (only used for the end-of-input test when no action returns). -/
+def runPairs (modes : Array Mode) (r : Int) : List Pair → SM → Res × SM
+  | [], sm => if sm.state = 0 ∧ r = -1 then (.eof, sm) else (.error, sm)
+  | (ty, p) :: rest, sm =>
+    if ty = 1 then
+      if p.toNat < modes.size then
+        runPairs modes r rest
+          { sm with modeStack := sm.mode.getD 0 :: sm.modeStack, mode := some p.toNat }
+      else (.oob, sm)
+    else if ty = 2 then
+      match sm.modeStack with
+      | [] => (.error, sm)
+      | top :: st => runPairs modes r rest { sm with mode := some top, modeStack := st }
+    else if ty = 3 then (.accept, { sm with token := p, state := 0 })
+    else if ty = 4 then (.discard, { sm with state := 0 })
+    else if ty = 5 then (.tryAgain, { sm with state := 0 })
+    else runPairs modes r rest sm
+
+/-! ### Maximal munch (definitions for `Lox/Lex/MunchProofs.lean`) -/
+
+/-- Number of runes the table consumes from state `q` on the input `s` before it has no
+transition (or the input ends). -/
+def scanLen (tbl : Mode) : Nat → List Int → Nat
+  | _, [] => 0
+  | q, c :: s =>
+    match tableStep tbl q c with
+    | none => 0
+    | some q' => scanLen tbl q' s + 1
+
+/-- State 0 is not accepting and no transition leads into state 0 (`splitStartState` in
+`internal/lexergen/mode/mode.go` establishes the second; the first fails exactly when some rule
+matches the empty string). The generated `PushRune` takes "state 0" to mean "nothing consumed
+since the last token". -/
+def startClean (tbl : Mode) : Bool :=
+  (rowPairs tbl 0).isEmpty &&
+  (List.range (nStates tbl)).all fun q =>
+    match rowAt tbl q with
+    | some row => row.trs.all fun t => decide (t.2.2 ≠ 0)
+    | none => true
+
+/-- `k` calls of `consume()`. -/
+def Lx.advance (inp : Input) : Nat → Lx → Lx
+  | 0, l => l
+  | k + 1, l => Lx.advance inp k (l.consume inp)
+
+/-- What `ReadToken` does with the result `x` of one `PushRune` call (the `switch` in
+`simplelexer.ReadToken`; `readToken_eq_tokBody`: `readToken (n+1) start l` is `tokBody` applied to
+`pushRune l.sm l.char`). `start` is the start offset of the token being read. -/
+def tokBody (modes : Array Mode) (inp : Input) (n : Nat) (start : Nat) (l : Lx) (x : Res × SM) :
+    Option (Option Tok × Lx) :=
+  let l := { l with sm := x.2 }
+  match x.1 with
+  | .consume => readToken modes inp n (some start) (l.consume inp)
+  | .accept => some (some (.tok x.2.token start l.offset), l)
+  | .discard => readToken modes inp n none l
+  | .tryAgain => readToken modes inp n (some start) l
+  | .eof => some (some (.eof start), l)
+  | .oob => some (none, l)
+  | .error =>
+    let c := l.char inp
+    let l := skipLine inp (inp.size + 1) l
+    let l := l.consume inp
+    some (some (.err start c), { l with sm := l.sm.reset })
+
+/-- The runes not yet consumed. -/
+def Lx.rest (inp : Input) (l : Lx) : List Int := (inp.toList.drop l.idx).map (·.1)
+
+/-- Push-mode actions name existing modes. -/
+def pairsOK (nModes : Nat) (ps : List Pair) : Bool :=
+  ps.all fun p => decide (p.1 ≠ 1) || decide (p.2.toNat < nModes)
+
+/-- All mode tables of a lexer: each well formed, push-mode parameters in range. -/
+def wfModes (modes : Array Mode) : Bool :=
+  decide (1 ≤ modes.size) &&
+  modes.toList.all fun m =>
+    wfTable m && (List.range (nStates m)).all fun q => pairsOK modes.size (rowPairs m q)
+
+/-- The state machine points into the tables: current mode and stacked modes exist, the state is
+a state of the current mode. -/
+def SMok (modes : Array Mode) (sm : SM) : Prop :=
+  (∀ x ∈ sm.modeStack, x < modes.size) ∧
+  ∃ m, modes[sm.mode.getD 0]? = some m ∧ ∃ q : Nat, sm.state = (q : Int) ∧ q < nStates m
+
 /-! ### The checker -/
 
 /-- A pair of the simulation: table state, one term set per rule. -/
@@ -124,12 +208,29 @@ def rowBounds (row : Row) : List Int := row.trs.flatMap fun t => [t.1, t.2.1 + 1
 def vecBounds (v : List (List Re)) : List Int :=
   v.flatMap fun ts => ts.flatMap fun t => (firstCls t).flatMap clsBounds
 
+/-- Ordered insertion without duplicates. -/
+def insInt (a : Int) : List Int → List Int
+  | [] => [a]
+  | b :: l => if a = b then b :: l else if a < b then a :: b :: l else b :: insInt a l
+
 /-- One representative per piece of the partition of the integers induced by the boundaries
 `bs`: every boundary (= least element of its piece) and one point below all of them. -/
 def reps (bs : List Int) : List Int :=
-  (Std.HashSet.ofList ((bs.foldl min 0 - 1) :: bs)).toList
+  ((bs.foldl min 0 - 1) :: bs).foldr insInt []
 
-def checkCfg (pss : List (List Pair)) (tbl : Mode) (R : Std.HashSet Cfg) (cfg : Cfg) : Bool :=
+/-- A set of pairs indexed by table state: `ix[q]` lists the vectors paired with `q`. -/
+abbrev Index := Array (List (List (List Re)))
+
+def Index.has (ix : Index) (cfg : Cfg) : Bool := (ix.getD cfg.1 []).contains cfg.2
+
+def Index.add (ix : Index) (cfg : Cfg) : Index := ix.modify cfg.1 (cfg.2 :: ·)
+
+/-- The index of a list of pairs (states `< n`). -/
+def mkIndex (n : Nat) (R : List Cfg) : Index :=
+  ((List.range n).map fun q =>
+    R.filterMap fun cfg => if cfg.1 = q then some cfg.2 else none).toArray
+
+def checkCfg (pss : List (List Pair)) (tbl : Mode) (R : Index) (cfg : Cfg) : Bool :=
   match rowAt tbl cfg.1 with
   | none => false
   | some row =>
@@ -138,19 +239,20 @@ def checkCfg (pss : List (List Pair)) (tbl : Mode) (R : Std.HashSet Cfg) (cfg : 
       let v' := pdVec c cfg.2
       match (lookup row.trs c).map Int.toNat with
       | none => vecDead v'
-      | some q' => !vecDead v' && R.contains (q', v')
+      | some q' => !vecDead v' && R.has (q', v')
 
 /-- Initial vector. -/
 def initVec (rules : List (Re × List Pair)) : List (List Re) := rules.map fun r => [r.1]
 
+/-- At least one rule; every class of every rule is non-empty; every rule has an action pair. -/
 def rulesOK (rules : List (Re × List Pair)) : Bool :=
-  rules.all fun r => r.1.clsOK && !r.2.isEmpty
+  !rules.isEmpty && rules.all fun r => r.1.clsOK && !r.2.isEmpty
 
 /-- The trusted part of the validator: the candidate relation `R` (a list of pairs) contains the
 initial pair, every member passes `checkCfg`. -/
 def checkAll (rules : List (Re × List Pair)) (tbl : Mode) (R : List Cfg) : Bool :=
-  let set := Std.HashSet.ofList R
-  wfTable tbl && rulesOK rules && set.contains (0, initVec rules) &&
+  let set := mkIndex (nStates tbl) R
+  wfTable tbl && rulesOK rules && set.has (0, initVec rules) &&
   R.all (checkCfg (rules.map (·.2)) tbl set)
 
 /-! ### Untrusted exploration and diagnostics -/
@@ -166,20 +268,20 @@ def succs (tbl : Mode) (cfg : Cfg) : List Cfg :=
         let v' := pdVec c cfg.2
         if vecDead v' then none else some (q'.toNat, v')
 
-def explore (tbl : Mode) : Nat → List Cfg → Std.HashSet Cfg → Array Cfg → Option (Array Cfg)
+def explore (tbl : Mode) : Nat → List Cfg → Index → Array Cfg → Option (Array Cfg)
   | 0, _, _, _ => none
   | _ + 1, [], _, acc => some acc
   | n + 1, cfg :: work, seen, acc =>
     let new := (succs tbl cfg).foldl
-      (fun (ws : List Cfg × Std.HashSet Cfg) x =>
-        if ws.2.contains x then ws else (x :: ws.1, ws.2.insert x)) (work, seen)
+      (fun (ws : List Cfg × Index) x =>
+        if ws.2.has x then ws else (x :: ws.1, ws.2.add x)) (work, seen)
     explore tbl n new.1 new.2 (acc.push cfg)
 
 def showPairs (ps : List Pair) : String :=
   "[" ++ " ".intercalate (ps.map fun p => toString p.1 ++ ":" ++ toString p.2) ++ "]"
 
 /-- Why `checkCfg` fails on a pair (diagnostics only). -/
-def explainCfg (pss : List (List Pair)) (tbl : Mode) (R : Std.HashSet Cfg) (cfg : Cfg) : String :=
+def explainCfg (pss : List (List Pair)) (tbl : Mode) (R : Index) (cfg : Cfg) : String :=
   let st := "state " ++ toString cfg.1 ++ ": "
   match rowAt tbl cfg.1 with
   | none => st ++ "no row"
@@ -196,7 +298,7 @@ def explainCfg (pss : List (List Pair)) (tbl : Mode) (R : Std.HashSet Cfg) (cfg 
         | some q' =>
           if vecDead v' then
             some ("rune " ++ toString c ++ " table goes to " ++ toString q' ++ ", no rule continues")
-          else if R.contains (q', v') then none
+          else if R.has (q', v') then none
           else some ("rune " ++ toString c ++ " successor not explored")
       st ++ bad.headD "?"
 
@@ -219,6 +321,7 @@ def exploreFuel : Nat := 1000000
 /-- The validator. `.ok n`: `n` pairs explored, all checks passed. -/
 def bisimN (rules : List (Re × List Pair)) (tbl : Mode) : Except String Nat :=
   if !wfTable tbl then .error ("wf " ++ wfWhy tbl)
+  else if rules.isEmpty then .error "no rules"
   else
     match (List.range rules.length).find? (fun i => !(rules.getD i default).1.clsOK) with
     | some i => .error ("rule " ++ toString i ++ " has an empty class")
@@ -227,13 +330,13 @@ def bisimN (rules : List (Re × List Pair)) (tbl : Mode) : Except String Nat :=
     | some i => .error ("rule " ++ toString i ++ " has no action pairs")
     | none =>
       let init : Cfg := (0, initVec rules)
-      match explore tbl exploreFuel [init] (Std.HashSet.ofList [init]) #[] with
+      match explore tbl exploreFuel [init] (mkIndex (nStates tbl) [init]) #[] with
       | none => .error "out of fuel"
       | some R =>
         let Rl := R.toList
         if checkAll rules tbl Rl then .ok Rl.length
         else
-          let set := Std.HashSet.ofList Rl
+          let set := mkIndex (nStates tbl) Rl
           let pss := rules.map (·.2)
           match Rl.find? (fun cfg => !checkCfg pss tbl set cfg) with
           | some cfg => .error (explainCfg pss tbl set cfg)
